@@ -1438,7 +1438,7 @@ fn read_command_div(cur: &mut SourceCursor, song: &mut Song, need2back: bool) ->
     let len_s = cur.get_note_length();
     let tokens = lex(song, &block, line_start);
     // count note (an element inside a loop counts once per repetition of the loop)
-    let mut cnt = 0;
+    let mut cnt: isize = 0;
     let mut mult: isize = 1; // how often the current position is played
     let mut loops: Vec<(isize, isize)> = vec![]; // (multiplier outside the loop, loop count)
     for t in tokens.iter() {
@@ -1446,26 +1446,26 @@ fn read_command_div(cur: &mut SourceCursor, song: &mut Song, need2back: bool) ->
             TokenType::LoopBegin => {
                 let n = match &t.data[0] { SValue::Int(n) => if *n < 0 { 0 } else { *n }, _ => 1 };
                 loops.push((mult, n));
-                mult *= n;
+                mult = mult.wrapping_mul(n);
             }
             TokenType::LoopBreak => {
                 // the part after ':' is skipped on the last pass
-                if let Some((outer, n)) = loops.last() { mult = outer * if *n > 0 { *n - 1 } else { 0 }; }
+                if let Some((outer, n)) = loops.last() { mult = outer.wrapping_mul(if *n > 0 { *n - 1 } else { 0 }); }
             }
             TokenType::LoopEnd => {
                 if let Some((outer, _)) = loops.pop() { mult = outer; }
             }
             TokenType::Note => {
-                cnt += mult * (1 + scan_chars(&t.data[2].to_s(), '^'));
+                cnt = cnt.wrapping_add(mult.wrapping_mul(1 + scan_chars(&t.data[2].to_s(), '^')));
             }
             TokenType::NoteN => {
-                cnt += mult * (1 + scan_chars(&t.data[1].to_s(), '^'));
+                cnt = cnt.wrapping_add(mult.wrapping_mul(1 + scan_chars(&t.data[1].to_s(), '^')));
             }
             TokenType::Div => {
-                cnt += mult * (1 + scan_chars(&t.data[0].to_s(), '^'));
+                cnt = cnt.wrapping_add(mult.wrapping_mul(1 + scan_chars(&t.data[0].to_s(), '^')));
             }
             TokenType::Rest => {
-                cnt += mult * (1 + scan_chars(&t.data[0].to_s(), '^'));
+                cnt = cnt.wrapping_add(mult.wrapping_mul(1 + scan_chars(&t.data[0].to_s(), '^')));
             }
             _ => {}
         }
